@@ -732,6 +732,11 @@ class Exec:
                 r = thunk(); ok = True
             except (NeedFork, RaiseSig):
                 r = None
+            except Infeasible:
+                # under a guard, an infeasible speculative evaluation only says that the guard cannot hold here: let the caller decide by an explicit branch
+                # (it used to end the whole path, which silently dropped the feasible other arm -- e.g. `x.a if x else y` with x known to be None)
+                if guard is None: raise
+                r = None
             facts = self.facts_log
         finally:
             self.nofork -= 1; self.facts_log = saved_log
@@ -2255,7 +2260,7 @@ class Exec:
             names = [h.type] if not isinstance(h.type, ast.Tuple) else h.type.elts
             for nm in names:
                 cls = self.eval(nm)
-                if isinstance(cls, BuiltinRef) and (cls.name.endswith('Error') or cls.name.endswith('Exception')):
+                if isinstance(cls, BuiltinRef) and (cls.name.endswith('Error') or cls.name.endswith('Exception') or cls.name in ('decimal.InvalidOperation',)):
                     cls = ExcClass(cls.name.split('.')[-1])      # an exception class of a library module: known by name only (a direct subclass of Exception)
                 if not isinstance(cls, ExcClass): raise Unsupported('except clause class')
                 if self.exc_isinstance(exc.cls, cls.name): return h
